@@ -473,6 +473,17 @@ def install(I):
             return
         raise Unsupported("float(%r)" % (v.kind,))
 
+    @reg("float_or_none")
+    def _float_or_none(I, st, args, kw):
+        """spec builtin: float(v) if that succeeds else None (same abstraction of string parsing as the model of float())"""
+        v = I.tup_to_sv(args[0]) if not isinstance(args[0], SV) else args[0]
+        x = I.as_any(v)
+        is_str = Val.is_VStr(x)
+        p = I.ufunc("str_parses_float", core.I, core.B)(Val.s(x))
+        pv = I.ufunc("str_float_value", core.I, core.R)(Val.s(x))
+        ok = z3.Or(core.is_num(x), z3.And(is_str, p))
+        yield SV(OPT(REAL), (z3.Not(ok), z3.If(is_str, pv, core.num_of(x)))), st
+
     @reg("bool")
     def _bool(I, st, args, kw):
         t = z3.simplify(I.truthy(args[0]) if args else FALSE)
